@@ -134,6 +134,18 @@ def gen_query(rnd, st, v=None):
         if v >= 31 and rnd.random() < 0.2 and provs:
             g['in_tree'] = rnd.choice(provs)
 
+    def disjoint_pair():
+        """A (trait, aggregate) pair each of which some provider has while no
+        provider has both: the conjunction must select nothing."""
+        pairs = []
+        for t in TRAITS:
+            ht = {p for p in st['rp'] if t in st['traits'].get(p, {})}
+            for a in AGGS:
+                ha = {p for p in st['rp'] if a in st['aggs'].get(p, {})}
+                if ht and ha and not (ht & ha):
+                    pairs.append((t, a))
+        return rnd.choice(pairs) if pairs else None
+
     groups = []
     nsuf = 0
     if v >= 25:
@@ -152,6 +164,15 @@ def gen_query(rnd, st, v=None):
         filters(g, True)
         groups.append(g)
         sufs.append(sfx)
+    # conjunctions of positive filters whose intersection is empty although each matches
+    if v >= 21 and rnd.random() < 0.12:
+        dp = disjoint_pair()
+        if dp:
+            g = rnd.choice(groups)
+            g['required'] = [_setrec([dp[0]])]
+            g['member_of'] = [_setrec([dp[1]])]
+            g['forbidden'] = {}
+            g['forbidden_aggs'] = {}
     q = {'op': 'ac_list', 'v': v, 'groups': groups, 'policy': '',
          'root_required': {}, 'root_forbidden': {}, 'same_subtree': [], 'limit': -1}
     if nsuf >= 2 or (nsuf >= 1 and rnd.random() < 0.5):
@@ -278,6 +299,21 @@ def gen_filter(rnd, st, v=None):
     if v >= 4 and rnd.random() < 0.45:
         classes = [k for k in CLASSES if k != 'CUSTOM_RC1' or 'CUSTOM_RC1' in st['classes']]
         f['resources'] = {k: rnd.choice([1, 2, 3, 4, 8]) for k in rnd.sample(classes, rnd.randint(1, 2))}
+    # a conjunction of positive filters each of which matches while no provider satisfies both
+    if v >= 18 and rnd.random() < 0.1:
+        pairs = []
+        for t in TRAITS + [SHARING]:
+            ht = {p for p in st['rp'] if t in st['traits'].get(p, {})}
+            for a in AGGS:
+                ha = {p for p in st['rp'] if a in st['aggs'].get(p, {})}
+                if ht and ha and not (ht & ha):
+                    pairs.append((t, a))
+        if pairs:
+            t, a = rnd.choice(pairs)
+            f['required'] = [_setrec([t])]
+            f['member_of'] = [_setrec([a])]
+            f['forbidden'] = {}
+            f['forbidden_aggs'] = {}
     if rnd.random() < 0.04 and v >= 18:
         f['required'].append(_setrec(['CUSTOM_T4']))     # unknown trait -> 400
     if rnd.random() < 0.04 and v >= 4:
